@@ -1,3 +1,443 @@
 import B6.Driver.Common
-/-! Driver for C07 — stub (the check for this property is not built yet). -/
-def main : IO Unit := B6.Driver.run { σ := Unit, init := (), step := fun s _ _ => (s, .bad) }
+import B6.Model.Avl
+import B6.Spec.SortedMap
+/-!
+Driver for C07.
+
+State: the model `World` (tree as last reported by the implementation + model iterator states), the
+reference sorted map `ref` (driven by the op texts only), one property tracker per iterator, and the
+same three things for a `TreeIndex`.
+
+  `reset`               answer `ok`                           (fresh state inside a case; corpus only)
+ops on a treeList (`k`, `g`, `i` are decimal numbers):
+  `ins k g` / `del k`   answer `len=<n> par=<0|1> ok=<0|1> [<preorder: k:g:bal | .>]`
+  `get k`               answer `some g` | `none`
+  `drain`               answer `[k:g …]`                      (a fresh iterator run to the end)
+  `begin`               answer `i=<index>`
+  `next i` / `adv i k`  answer `<true k:g | false> node=<k|nil> del=<0|1> started=<0|1> done=<0|1>` | `crash` | `hang` | `panic`
+ops on a TreeIndex (tokens are `tNN`):
+  `xadd k g [tok …]` / `xrm k [tok …]`   answer `tokens=[tNN:bal | . …] par= ok= len= | tNN len= par= ok= [tree] | …`
+  `xtokens`             answer `[tNN …]`
+  `xnum`                answer `<n>`
+  `xbegin tNN`          answer `i=<index>` | `i=<index> empty`
+  `xnext i` / `xadv i k`  as `next` / `adv` (`false empty` for the empty iterator)
+
+Property predicate (evaluated on the implementation's answer): the dumped tree satisfies `Inv`
+(order, stored balance = height difference, |balance| ≤ 1), parent pointers and `Validate()` are fine,
+its in-order contents equal the reference map, `len` equals its size; for iterator calls the
+trace-level clauses of the property — returned keys increase (strictly for `Next`), the returned key is
+in the reference map now, no key that has been in the map ever since `begin` is skipped.
+-/
+open B6.Driver B6.Model.Avl B6.Spec
+namespace B6.Driver.C07
+
+/-! ### rendering / parsing -/
+
+def valTree (t : Tree Nat) : String :=
+  renderList (go t)
+where go : Tree Nat → List String
+  | .nil => ["."]
+  | .node l k p b r => (toString k ++ ":" ++ toString p ++ ":" ++ toString b) :: (go l ++ go r)
+
+def pad2 (n : Nat) : String := if n < 10 then "0" ++ toString n else toString n
+def tokName (n : Nat) : String := "t" ++ pad2 n
+def parseTok (s : String) : Option Nat := if s.startsWith "t" then (sdrop s 1).toNat? else none
+
+def tokTree (t : Tree α) : String :=
+  renderList (go t)
+where go : Tree α → List String
+  | .nil => ["."]
+  | .node l k _ b r => (tokName k ++ ":" ++ toString b) :: (go l ++ go r)
+
+/-- parse a preorder word list; `node` turns a word into (key, payload, balance) -/
+def parsePre (node : String → Option (Nat × α × Int)) : Nat → List String → Option (Tree α × List String)
+  | 0, _ => none
+  | _, [] => none
+  | fuel + 1, w :: rest =>
+    if w == "." then some (.nil, rest) else
+    match node w with
+    | none => none
+    | some (k, p, b) =>
+      match parsePre node fuel rest with
+      | none => none
+      | some (l, rest1) =>
+        match parsePre node fuel rest1 with
+        | none => none
+        | some (r, rest2) => some (.node l k p b r, rest2)
+
+def parseWhole (node : String → Option (Nat × α × Int)) (s : String) : Option (Tree α) :=
+  match parseBracket s with
+  | none => none
+  | some ws =>
+    match parsePre node (ws.length + 1) ws with
+    | some (t, []) => some t
+    | _ => none
+
+def valNode (w : String) : Option (Nat × Nat × Int) :=
+  match w.splitOn ":" with
+  | [k, g, b] => do some ((← k.toNat?), (← g.toNat?), (← b.toInt?))
+  | _ => none
+
+def tokNode (w : String) : Option (Nat × Unit × Int) :=
+  match w.splitOn ":" with
+  | [t, b] => do some ((← parseTok t), (), (← b.toInt?))
+  | _ => none
+
+/-- value of `key=` in a word list -/
+def field (ws : List String) (key : String) : Option String :=
+  (ws.find? (fun w => w.startsWith (key ++ "="))).map (fun w => sdrop w (key.length + 1))
+
+def renderSMap (m : SortedMap.SMap Nat) : String :=
+  renderList (m.map fun (k, g) => toString k ++ ":" ++ toString g)
+
+def b01 (b : Bool) : String := if b then "1" else "0"
+
+/-- answer of `ins`/`del` -/
+def renderListState (t : TreeList Nat) : String :=
+  s!"len={t.length} par=1 ok=1 {valTree t.root}"
+
+structure ListAnswer where
+  len : Int
+  par : Bool
+  ok : Bool
+  tree : Tree Nat
+
+def parseListState (s : String) : Option ListAnswer :=
+  match s.splitOn " [" with
+  | [hd, tl] => do
+    let ws := words hd
+    let len ← (← field ws "len").toInt?
+    let par ← field ws "par"
+    let ok ← field ws "ok"
+    let tree ← parseWhole valNode ("[" ++ tl)
+    some ⟨len, par == "1", ok == "1", tree⟩
+  | _ => none
+
+def renderIter (it : Iter) : String :=
+  let node := match it.node with | some (k, _) => toString k | none => "nil"
+  let del := match it.node with | some (_, d) => b01 d | none => "0"
+  s!"node={node} del={del} started={b01 it.started} done={b01 it.done}"
+
+def renderIterAnswer (t : Tree Nat) (it : Iter) (ok : Bool) : String :=
+  let hd := if ok then
+      match it.node with
+      | some (k, _) => match t.lookup k with
+        | some g => s!"true {k}:{g}"
+        | none => s!"true {k}:?"
+      | none => "true nil"
+    else "false"
+  hd ++ " " ++ renderIter it
+
+structure IterAnswer where
+  ret : Option (Nat × Nat)     -- `true k:g`
+  it : Iter
+
+def parseIterAnswer (s : String) : Option IterAnswer := do
+  let ws := words s
+  let (ret, rest) ← match ws with
+    | "true" :: kg :: rest =>
+      match kg.splitOn ":" with
+      | [k, g] => do some (some ((← k.toNat?), (← g.toNat?)), rest)
+      | _ => none
+    | "false" :: rest => some (none, rest)
+    | _ => none
+  let node ← field rest "node"
+  let del ← field rest "del"
+  let started ← field rest "started"
+  let done ← field rest "done"
+  let n : Option (Nat × Bool) ← if node == "nil" then some none else do some (some ((← node.toNat?), del == "1"))
+  some ⟨ret, { started := started == "1", node := n, done := done == "1" }⟩
+
+/-! ### property trackers -/
+
+/-- trace-level view of one iterator: last key it returned, keys in the map ever since `begin`, finished? -/
+structure Cur where
+  pos : Option Nat := none
+  owed : List Nat := []
+  dead : Bool := false
+
+def posLt (pos : Option Nat) (x : Nat) : Bool := match pos with | none => true | some c => decide (c < x)
+def posLe (pos : Option Nat) (x : Nat) : Bool := match pos with | none => true | some c => decide (c ≤ x)
+
+/-- the iterator clauses of the property on one implementation answer; `none` = fine.
+`target` = the `Advance` key (`none` for `Next`). -/
+def iterClause (ref : SortedMap.SMap Nat) (c : Cur) (target : Option Nat) (ret : Option (Nat × Nat)) : Option String :=
+  if c.dead then none else
+  let tgt := target.getD 0
+  match ret with
+  | some (k, g) =>
+    if target.isNone && !posLt c.pos k then some "iter-order"
+    else if target.isSome && !(posLe c.pos k && decide (tgt ≤ k)) then some "iter-order"
+    else if SortedMap.lookup ref k != some g then some "iter-deleted"
+    else if c.owed.any (fun x => posLt c.pos x && decide (tgt ≤ x) && decide (x < k)) then some "iter-skipped"
+    else none
+  | none =>
+    if c.owed.any (fun x => posLt c.pos x && decide (tgt ≤ x)) then some "iter-skipped" else none
+
+def Cur.update (c : Cur) (ret : Option (Nat × Nat)) : Cur :=
+  match ret with
+  | some (k, _) => { c with pos := some k }
+  | none => { c with dead := true }
+
+/-! ### state -/
+
+structure St where
+  w : World Nat := World.empty
+  ref : SortedMap.SMap Nat := []
+  curs : List Cur := []
+  ix : Index := Index.empty
+  ixRef : SortedMap.SMap (SortedMap.SMap Nat) := []
+  ixIters : List (Option Nat × Iter) := []     -- token (none = the empty iterator), state
+  ixCurs : List Cur := []
+
+def verdictOf (impl model : String) (clause : Option String) : Verdict :=
+  match clause with
+  | some c => .propfail c
+  | none => if impl == model then .ok else .diff model
+
+/-- property clauses for the answer of `ins`/`del` -/
+def listClause (a : ListAnswer) (ref' : SortedMap.SMap Nat) : Option String :=
+  if !a.par then some "parent-pointers"
+  else if !decide (Tree.Inv a.tree) then some "avl-invariant"
+  else if !a.ok then some "validate"
+  else if a.tree.toList != ref' then some "content"
+  else if a.len != (ref'.length : Int) then some "length"
+  else none
+
+def stepMut (st : St) (impl : String) (ref' : SortedMap.SMap Nat) (model : Option (World Nat)) : St × Verdict :=
+  let m := match model with | some w => renderListState w.list | none => "panic"
+  match parseListState impl with
+  | none =>
+    -- `panic` etc.: not a tree any more; the property demands a valid tree
+    (match model with | some w => { st with w := w, ref := ref' } | none => { st with ref := ref' },
+      if impl == m then .ok else .propfail "no-tree")
+  | some a =>
+    let clause := listClause a ref'
+    let iters := match model with | some w => w.iters | none => st.w.iters
+    let st' := { st with w := ⟨⟨a.tree, a.len⟩, iters⟩, ref := if clause.isSome then a.tree.toList else ref' }
+    (st', verdictOf impl m clause)
+
+def stepIter (st : St) (i : Nat) (target : Option Nat) (impl : String) : St × Verdict :=
+  match st.w.iters[i]?, st.curs[i]? with
+  | some it, some c =>
+    let (it', ok) := match target with
+      | none => it.next st.w.list.root
+      | some k => it.advance st.w.list.root k
+    let m := renderIterAnswer st.w.list.root it' ok
+    match parseIterAnswer impl with
+    | none => (st, if c.dead then .diff m else .propfail ("iter-" ++ impl))
+    | some a =>
+      let clause := iterClause st.ref c target a.ret
+      ({ st with w := { st.w with iters := st.w.iters.set i a.it }, curs := st.curs.set i (c.update a.ret) },
+        verdictOf impl m clause)
+  | _, _ => (st, .bad)
+
+/-! ### TreeIndex -/
+
+def renderIndex (ix : Index) : String :=
+  let hd := s!"tokens={tokTree ix.lists.root} par=1 ok=1 len={ix.lists.length}"
+  let segs := ix.lists.root.toList.map fun (tok, l) => s!"{tokName tok} len={l.length} par=1 ok=1 {valTree l.root}"
+  " | ".intercalate (hd :: segs)
+
+structure IndexAnswer where
+  tokens : Tree Unit
+  par : Bool
+  ok : Bool
+  len : Int
+  segs : List (Nat × ListAnswer)
+
+def parseSeg (s : String) : Option (Nat × ListAnswer) :=
+  match words s with
+  | tok :: _ => do
+    let t ← parseTok tok
+    let a ← parseListState (sdrop s (tok.length + 1))
+    some (t, a)
+  | [] => none
+
+def parseIndex (s : String) : Option IndexAnswer :=
+  match s.splitOn " | " with
+  | [] => none
+  | hd :: segs =>
+    match (sdrop hd 7).splitOn "] " with     -- after `tokens=`
+    | [tr, rest] => do
+      let tokens ← parseWhole tokNode (tr ++ "]")
+      let ws := words rest
+      let par ← field ws "par"
+      let ok ← field ws "ok"
+      let len ← (← field ws "len").toInt?
+      let segs ← segs.mapM parseSeg
+      some ⟨tokens, par == "1", ok == "1", len, segs⟩
+    | _ => none
+
+def fillTokens (segs : List (Nat × ListAnswer)) : Tree Unit → Option (Tree (TreeList Nat))
+  | .nil => some .nil
+  | .node l k _ b r => do
+    let l' ← fillTokens segs l
+    let r' ← fillTokens segs r
+    let a ← (segs.find? (fun s => s.1 == k)).map (·.2)
+    some (.node l' k ⟨a.tree, a.len⟩ b r')
+
+def indexClause (a : IndexAnswer) (ref' : SortedMap.SMap (SortedMap.SMap Nat)) : Option String :=
+  if !a.par then some "parent-pointers"
+  else if !decide (Tree.Inv a.tokens) then some "avl-invariant"
+  else if !a.ok then some "validate"
+  else if a.tokens.keys != ref'.map (·.1) || a.segs.map (·.1) != ref'.map (·.1) then some "tokens"
+  else if a.len != (ref'.length : Int) then some "length"
+  else
+    (List.zip a.segs ref').findSome? fun (s, r) => listClause s.2 r.2
+
+def refAdd (ref : SortedMap.SMap (SortedMap.SMap Nat)) (k g : Nat) : List Nat → SortedMap.SMap (SortedMap.SMap Nat)
+  | [] => ref
+  | tok :: rest =>
+    let cur := (SortedMap.lookup ref tok).getD []
+    refAdd (SortedMap.insert ref tok (SortedMap.insert cur k g)) k g rest
+
+def refRemove (ref : SortedMap.SMap (SortedMap.SMap Nat)) (k : Nat) : List Nat → SortedMap.SMap (SortedMap.SMap Nat)
+  | [] => ref
+  | tok :: rest =>
+    match SortedMap.lookup ref tok with
+    | some cur => refRemove (SortedMap.insert ref tok (SortedMap.erase cur k)) k rest
+    | none => refRemove ref k rest
+
+def stepIndexMut (st : St) (impl : String) (ref' : SortedMap.SMap (SortedMap.SMap Nat)) (model : Option Index)
+    (iters : List (Option Nat × Iter)) (curs : List Cur) : St × Verdict :=
+  let m := match model with | some ix => renderIndex ix | none => "panic"
+  let st := { st with ixIters := iters, ixCurs := curs }
+  match parseIndex impl with
+  | none => ({ st with ixRef := ref', ix := model.getD st.ix }, if impl == m then .ok else .propfail "no-tree")
+  | some a =>
+    let clause := indexClause a ref'
+    let resync : Option Index := (fillTokens a.segs a.tokens).map fun t => ⟨⟨t, a.len⟩⟩
+    let ix' := match resync with | some ix => ix | none => model.getD st.ix
+    let ref'' := if clause.isSome then a.segs.map (fun s => (s.1, s.2.tree.toList)) else ref'
+    ({ st with ix := ix', ixRef := ref'' }, verdictOf impl m clause)
+
+def parseToks (s : String) : Option (List Nat) := do
+  let ws ← parseBracket s
+  ws.mapM parseTok
+
+def stepIndexIter (st : St) (i : Nat) (target : Option Nat) (impl : String) : St × Verdict :=
+  match st.ixIters[i]?, st.ixCurs[i]? with
+  | some (none, _), some _ =>
+    -- the empty iterator
+    (st, if impl == "false empty" then .ok else .diff "false empty")
+  | some (some tok, it), some c =>
+    match st.ix.lists.root.lookup tok with
+    | none => (st, .bad)
+    | some lst =>
+      let (it', ok) := match target with
+        | none => it.next lst.root
+        | some k => it.advance lst.root k
+      let m := renderIterAnswer lst.root it' ok
+      match parseIterAnswer impl with
+      | none => (st, if c.dead then .diff m else .propfail ("iter-" ++ impl))
+      | some a =>
+        let ref := (SortedMap.lookup st.ixRef tok).getD []
+        let clause := iterClause ref c target a.ret
+        ({ st with ixIters := st.ixIters.set i (some tok, a.it), ixCurs := st.ixCurs.set i (c.update a.ret) },
+          verdictOf impl m clause)
+  | _, _ => (st, .bad)
+
+/-! ### the step function -/
+
+def step (st : St) (op impl : String) : St × Verdict :=
+  match words op with
+  | ["reset"] => ({}, if impl == "ok" then .ok else .diff "ok")
+  | ["ins", k, g] =>
+    match k.toNat?, g.toNat? with
+    | some k, some g =>
+      let model := match st.w.step (.ins k g) with | some (w, _) => some w | none => none
+      stepMut st impl (SortedMap.insert st.ref k g) model
+    | _, _ => (st, .bad)
+  | ["del", k] =>
+    match k.toNat? with
+    | some k =>
+      let model := match st.w.step (.del k) with | some (w, _) => some w | none => none
+      let present := (SortedMap.lookup st.ref k).isSome
+      let st := if present then { st with curs := st.curs.map fun c => { c with owed := c.owed.filter (· != k) } } else st
+      stepMut st impl (SortedMap.erase st.ref k) model
+    | none => (st, .bad)
+  | ["get", k] =>
+    match k.toNat? with
+    | some k =>
+      let show_ : Option Nat → String := fun | some g => s!"some {g}" | none => "none"
+      let m := show_ (st.w.list.root.lookup k)
+      let s := show_ (SortedMap.lookup st.ref k)
+      (st, if impl == s then (if impl == m then .ok else .diff m) else .propfail "lookup")
+    | none => (st, .bad)
+  | ["drain"] =>
+    let m := renderSMap st.w.list.root.toList
+    let s := renderSMap st.ref
+    (st, if impl == s then (if impl == m then .ok else .diff m) else .propfail "content")
+  | ["begin"] =>
+    let i := st.w.iters.length
+    let m := s!"i={i}"
+    ({ st with w := { st.w with iters := st.w.iters ++ [{}] }, curs := st.curs ++ [{ owed := st.ref.map (·.1) }] },
+      if impl == m then .ok else .diff m)
+  | ["next", i] =>
+    match i.toNat? with
+    | some i => stepIter st i none impl
+    | none => (st, .bad)
+  | ["adv", i, k] =>
+    match i.toNat?, k.toNat? with
+    | some i, some k => stepIter st i (some k) impl
+    | _, _ => (st, .bad)
+  | "xadd" :: k :: g :: _ =>
+    match k.toNat?, g.toNat?, parseToks (" ".intercalate ((words op).drop 3)) with
+    | some k, some g, some toks =>
+      stepIndexMut st impl (refAdd st.ixRef k g toks) (st.ix.add k g toks) st.ixIters st.ixCurs
+    | _, _, _ => (st, .bad)
+  | "xrm" :: k :: _ =>
+    match k.toNat?, parseToks (" ".intercalate ((words op).drop 2)) with
+    | some k, some toks =>
+      -- iterators on a token whose list holds `k` see their node marked deleted; owed sets shrink
+      let hit : Nat → Bool := fun tok =>
+        toks.contains tok && ((SortedMap.lookup st.ixRef tok).bind (SortedMap.lookup · k)).isSome
+      let iters := st.ixIters.map fun (tok, it) =>
+        match tok with
+        | some t => if hit t then (tok, it.onDelete k) else (tok, it)
+        | none => (tok, it)
+      let curs := (List.zip st.ixIters st.ixCurs).map fun ((tok, _), c) =>
+        match tok with
+        | some t => if hit t then { c with owed := c.owed.filter (· != k) } else c
+        | none => c
+      stepIndexMut st impl (refRemove st.ixRef k toks) (st.ix.remove k toks) iters curs
+    | _, _ => (st, .bad)
+  | ["xtokens"] =>
+    let m := renderList (st.ix.lists.root.keys.map tokName)
+    let s := renderList (st.ixRef.map (tokName ·.1))
+    (st, if impl == s then (if impl == m then .ok else .diff m) else .propfail "tokens")
+  | ["xnum"] =>
+    let m := toString st.ix.lists.length
+    let s := toString st.ixRef.length
+    (st, if impl == s then (if impl == m then .ok else .diff m) else .propfail "length")
+  | ["xbegin", tok] =>
+    match parseTok tok with
+    | some t =>
+      let i := st.ixIters.length
+      match st.ix.lists.root.lookup t with
+      | some _ =>
+        let m := s!"i={i}"
+        let owed := ((SortedMap.lookup st.ixRef t).getD []).map (·.1)
+        ({ st with ixIters := st.ixIters ++ [(some t, {})], ixCurs := st.ixCurs ++ [{ owed := owed }] },
+          if impl == m then .ok else .diff m)
+      | none =>
+        let m := s!"i={i} empty"
+        ({ st with ixIters := st.ixIters ++ [(none, {})], ixCurs := st.ixCurs ++ [{}] },
+          if impl == m then .ok else .diff m)
+    | none => (st, .bad)
+  | ["xnext", i] =>
+    match i.toNat? with
+    | some i => stepIndexIter st i none impl
+    | none => (st, .bad)
+  | ["xadv", i, k] =>
+    match i.toNat?, k.toNat? with
+    | some i, some k => stepIndexIter st i (some k) impl
+    | _, _ => (st, .bad)
+  | _ => (st, .bad)
+
+def family : Family := { σ := St, init := {}, step := step }
+
+end B6.Driver.C07
+
+def main : IO Unit := B6.Driver.run B6.Driver.C07.family
